@@ -397,6 +397,13 @@ impl WalManager {
     ///
     /// Returns an error if rotation fails.
     pub fn rotate(&self) -> Result<()> {
+        // Allocate the sequence number and install the new file in one critical
+        // section: with the lock taken only for the swap, two concurrent rotations
+        // could install their files in the opposite order of their sequence numbers,
+        // and appends would continue in a file that recovery replays before (or, after
+        // a checkpoint, skips instead of) a file written earlier.
+        let mut guard = self.active_log.lock();
+
         let new_sequence = self.current_sequence.fetch_add(1, Ordering::SeqCst) + 1;
         let new_path = self.log_path(new_sequence);
 
@@ -414,7 +421,6 @@ impl WalManager {
         };
 
         // Replace active log
-        let mut guard = self.active_log.lock();
         if let Some(old_log) = guard.take() {
             // Ensure old log is flushed
             drop(old_log);
